@@ -1,6 +1,6 @@
 """C11 - pattern matching is equivalent to the explicit query it abbreviates.
 
-IR: {"parts":[{"cls","tag","label","sub"}], "boxes":[{"cls","size","name","main","spare","parts","sizes"}],
+IR: {"parts":[{"cls","tag","label","sub","links"}], "boxes":[{"cls","size","name","main","spare","parts","sizes"}],
      "domain":[["box",i]|["part",j]|["crate",0]], "root":{"type","attrs":{attr:P}}, "root_selected":bool}
 P:  {"k":"lit","v"}                      literal on a scalar attribute            -> equality
     {"k":"obj","part":j}                 literal object on a reference attribute  -> identity/equality
@@ -27,6 +27,11 @@ def _walk(attrs, depth=1):
             yield from _walk(p["attrs"], depth + 1)
 
 
+def _no_constraint(attrs):
+    """a nested pattern whose type is the declared type and whose attributes constrain nothing is no condition at all"""
+    return all(p["k"] == "match" and p["type"] == "Part" and not p.get("select") and _no_constraint(p["attrs"]) for p in attrs.values())
+
+
 class C11(Check):
     id = "C11"
     title = "Pattern matching is equivalent to the explicit query it abbreviates"
@@ -45,7 +50,7 @@ class C11(Check):
         "nested patterns are not placed on attributes that are None in the data (the explicit query raises there as well)",
         "match_any/match_all are given non-empty iterables (entity_matching tests the truthiness of its argument, so an empty one is not distinguishable from 'no pattern')",
         "a select on a collection may report the collection itself or an element satisfying the nested pattern (both are 'consistent with the matched element')",
-        "an empty nested pattern match(T)() is not placed on a collection whose declared element type is T (read as 'no constraint' by the engine)",
+        "a nested pattern that constrains nothing (match(T)() or match(T)(sub=match(T)()) with T the declared type) is not placed on a collection (read as 'no constraint' by the engine)",
         "results are compared as sets of identities (multiplicity of rows is not part of the statement)",
         "for select forms on a collection every element satisfying the nested pattern is an admissible selected value",
     ]
@@ -72,7 +77,8 @@ class C11(Check):
             for i in range(n_parts):
                 sub = draw(st.integers(0, n_parts - 1)) if sub_total else draw(st.one_of(st.none(), st.integers(0, n_parts - 1)))
                 parts.append(dict(cls=draw(st.sampled_from(["Part", "Part", "SpecialPart"])), tag=draw(PART_SCALARS["tag"]),
-                                  label=draw(PART_SCALARS["label"]), sub=sub))
+                                  label=draw(PART_SCALARS["label"]), sub=sub,
+                                  links=draw(st.lists(st.integers(0, n_parts - 1), max_size=3))))
             n_boxes = draw(st.sampled_from([2, 3, 4, 4, 5]))
             spare_total = draw(st.booleans())
             boxes = []
@@ -89,11 +95,19 @@ class C11(Check):
 
             def part_pattern(depth, on_collection=False, allow_select=True):
                 attrs = {}
-                names = draw(st.lists(st.sampled_from(["tag", "label", "sub"] if (sub_total and depth > 0) else ["tag", "label"]),
+                names = draw(st.lists(st.sampled_from(["tag", "label", "links", "sub"] if (sub_total and depth > 0) else ["tag", "label", "links"]),
                                       max_size=2, unique=True))
                 for a in names:
                     if a == "sub":
                         attrs[a] = nested(depth - 1, ref=True, allow_select=allow_select)
+                    elif a == "links":
+                        # a collection below a nested pattern; inner parts are shared by several boxes
+                        k = draw(st.sampled_from(["member", "any", "all"]))
+                        if k == "member":
+                            attrs[a] = dict(k="member", part=draw(st.integers(0, n_parts - 1)))
+                        else:
+                            attrs[a] = dict(k=k, parts=draw(st.lists(st.integers(0, n_parts - 1), min_size=1, max_size=3)),
+                                            select=bool(allow_select and draw(st.integers(0, 3)) == 0))
                     elif draw(st.integers(0, 3)) == 0:
                         attrs[a] = dict(k="iter", v=draw(st.lists(PART_SCALARS[a], max_size=3)))
                     else:
@@ -103,7 +117,7 @@ class C11(Check):
             def nested(depth, ref, allow_select=True, on_collection=False):
                 t = draw(st.sampled_from(["Part", "Part", "SpecialPart"]))
                 attrs = part_pattern(depth, allow_select=allow_select)
-                if on_collection and not attrs and t == "Part":
+                if on_collection and t == "Part" and _no_constraint(attrs):
                     attrs = {"tag": dict(k="lit", v=draw(PART_SCALARS["tag"]))}
                 return dict(k="match", type=t, attrs=attrs, select=bool(allow_select and draw(st.integers(0, 3)) == 0))
 
@@ -142,6 +156,7 @@ class C11(Check):
         parts = [M.TYPES[p["cls"]](tag=p["tag"], label=p["label"]) for p in ir["parts"]]
         for o, p in zip(parts, ir["parts"]):
             o.sub = None if p["sub"] is None else parts[p["sub"]]
+            o.links = [parts[j] for j in p.get("links", [])]
             o._label = ("part", parts.index(o))
         boxes = []
         for i, b in enumerate(ir["boxes"]):
@@ -270,6 +285,8 @@ class C11(Check):
             return crash(exc, "pattern query", classes=classes, nontrivial=nontrivial)
 
         lists = {}
+        for o in parts:
+            lists[id(o.links)] = ("list", o._label, "links")
         for b in boxes:
             lists[id(b.parts)] = ("list", b._label, "parts")
             lists[id(b.sizes)] = ("list", b._label, "sizes")
